@@ -54,16 +54,35 @@ Print Assumptions C24_redeemed_le_total_history.
 (* Non-vacuity: the owner registers assigner 700 (individual 5 ZCN, total 7.5 ZCN); client 100 redeems
    2 ZCN (nonce 1): accepted; the same nonce again, a forged signature, a marker for somebody else,
    6 ZCN (> individual) and 5 ZCN more (2 + 5 > 7.5 total... 7 <= 7.5 accepted), then 1 ZCN (8 > 7.5) rejected. *)
+(* The signature is checked against the key registered for the assigner at redemption time: an
+   accepted free_allocation_request carries a marker signed with exactly that key ([signer] = the
+   key number the marker was signed with), and add_free_storage_assigner for an existing assigner
+   replaces the key (keeping what was redeemed) - a marker signed with a retired key is refused. *)
+Theorem C24_marker_signed_with_current_key :
+  forall c s now round id sender assigner recipient coin nonce signer bl s',
+  ss_apply c s now round (OpFreeAlloc id sender assigner recipient coin nonce signer bl) = Some s' ->
+  exists a, ss_find_assigner assigner (st_assigners s) = Some a /\ signer = as_key a.
+Proof. exact ss_free_needs_current_key. Qed.
+Print Assumptions C24_marker_signed_with_current_key.
+
+Theorem C24_registration_replaces_key :
+  forall c s now round sender name key indiv total s',
+  ss_apply c s now round (OpAddAssigner sender name key indiv total) = Some s' ->
+  exists a, ss_find_assigner name (st_assigners s') = Some a /\ as_key a = key /\
+            as_redeemed a = match ss_find_assigner name (st_assigners s) with Some o => as_redeemed o | None => 0 end.
+Proof. exact ss_add_assigner_key. Qed.
+Print Assumptions C24_registration_replaces_key.
+
 Example C24_example :
   let five := 4617315517961601024 in let seven5 := 4620130267728707584 in
-  let txs := [(1040, 1010, OpAddAssigner 300 700 five seven5);
-              (1041, 1011, OpFreeAlloc 2 100 700 100 (Some 20000000000) 1 true [1; 2]);
-              (1042, 1012, OpFreeAlloc 3 100 700 100 (Some 20000000000) 1 true [1; 2]);
-              (1043, 1013, OpFreeAlloc 3 100 700 100 (Some 20000000000) 2 false [1; 2]);
-              (1044, 1014, OpFreeAlloc 3 101 700 100 (Some 20000000000) 2 true [1; 2]);
-              (1045, 1015, OpFreeAlloc 3 100 700 100 (Some 60000000000) 2 true [1; 2]);
-              (1046, 1016, OpFreeAlloc 3 100 700 100 (Some 50000000000) 2 true [1; 2]);
-              (1047, 1017, OpFreeAlloc 4 100 700 100 (Some 10000000000) 3 true [1; 2])] in
+  let txs := [(1040, 1010, OpAddAssigner 300 700 0 five seven5);
+              (1041, 1011, OpFreeAlloc 2 100 700 100 (Some 20000000000) 1 0 [1; 2]);
+              (1042, 1012, OpFreeAlloc 3 100 700 100 (Some 20000000000) 1 0 [1; 2]);
+              (1043, 1013, OpFreeAlloc 3 100 700 100 (Some 20000000000) 2 9 [1; 2]);
+              (1044, 1014, OpFreeAlloc 3 101 700 100 (Some 20000000000) 2 0 [1; 2]);
+              (1045, 1015, OpFreeAlloc 3 100 700 100 (Some 60000000000) 2 0 [1; 2]);
+              (1046, 1016, OpFreeAlloc 3 100 700 100 (Some 50000000000) 2 0 [1; 2]);
+              (1047, 1017, OpFreeAlloc 4 100 700 100 (Some 10000000000) 3 0 [1; 2])] in
   let s0 := st_with_bals sw_killed_state [(100, 100000000000000); (300, 100000000000000); (1000, 100000097384982)] in
   snd (ss_run sw_conf s0 txs) = [true; true; false; false; false; false; true; false] /\
   map (fun a => (as_redeemed a, as_nonces a)) (st_assigners (fst (ss_run sw_conf s0 txs))) = [(70000000000, [1; 2])] /\
